@@ -380,6 +380,17 @@ func (r *Rng) buildEventTyped(o *Out, ver string, sizeTarget int, typ string) *b
 		}
 		o.Count("build.duplicate-member-in-raw-json")
 		buildRoundtripToo = true
+	} else if sizeTarget == 0 && r.Chance(6) {
+		// numbers the enforced canonical form (room versions 6+) refuses — in `unsigned` as well as in content: receipt checks
+		// the whole event, so Build must refuse them everywhere too (or the event it returns does not re-parse)
+		odd := Pick(r, []string{`{"age":1.5}`, `{"age":1e3}`, `{"age":-0}`, `{"age":9007199254740992}`, `{"t":{"n":[1,2.0]}}`, `{"age":-9007199254740992}`, `{"age":1E2}`})
+		if r.Bool() {
+			pe.Unsigned = spec.RawJSON(odd)
+		} else {
+			pe.Content = spec.RawJSON(odd)
+		}
+		o.Count("build.non-canonical-number-in-raw-json")
+		buildRoundtripToo = true
 	} else if r.Chance(10) {
 		buildRoundtripToo = true
 	}
